@@ -4,7 +4,7 @@ from facts import strip_generics, callee_of
 import sym
 import panics
 
-CONFIGS_QUICK = ["F_all"]
+CONFIGS_QUICK = ["F_all", "F_nool"]  # every configuration whose cfg-gated code the property depends on
 CONFIGS_THOROUGH = ["F_all", "F_nool"]
 TECHNIQUE = 'static analysis: panic-site enumeration over MIR of src/de with justification classes re-verified per run (peek-then-next dominance, who-may-assign flags, merging-transducer drop set, config who-may-write), reader panic audit re-evaluated as a premise, compile-fail witness'
 EXPLANATION = (
@@ -289,7 +289,8 @@ def j6_just_filled(ctx):
             # the panic is reachable only syntactically: on this path the container was filled or tested non-empty just before
             filled = any(e[0] == "call" and name_is(e[2], "push_front") and ends_with_fields(e[3][0], field) for e in p[:pan[0]]) or \
                 any(e[0] == "store" and is_self_field(e[2], field) and e[3][0] == "agg" and e[3][2] == "Some" for e in p[:pan[0]])
-            nonempty = any(e[0] == "switch" and e[2][0] == "call" and name_is(e[2][2], "is_empty", "is_none") and e[3] == 0 for e in p[:pan[0]])
+            nonempty = any(e[0] == "switch" and e[2][0] == "call" and name_is(e[2][2], "is_empty", "is_none") and e[3] == 0 for e in p[:pan[0]]) or \
+                any(e[0] == "switch" and e[2][0] == "discr" and is_self_field(strip_wrappers(e[2][1]), field) and e[3] == 1 for e in p[:pan[0]])
             ok_paths += 1
             ctx.ob("J6", "peek:just-filled", filled or nonempty, "the unreachable!() after `front()`/`as_ref()` lies on paths where `%s` was filled by push_front/Some(..) or tested non-empty just before" % field, config=cfg)
         ctx.ob("J6", "peek:site", ok_paths >= 1, "panic site of peek() found on %d path(s)" % ok_paths, config=cfg)
